@@ -24,12 +24,14 @@ var allSpecs = []HarnessSpec{
 	{Prop: "C04", Func: "ZZ_H_Instances", POR: true, Replay: "native", Params: map[string]int{"steps": 3, "__coarse": 1}},
 	{Prop: "C05", Func: "ZZ_H_History", Tag: "prop=5", POR: true, Replay: "native", Twin: true, Params: map[string]int{"prop": 5, "steps": 2, "__coarse": 1}, TParams: map[string]int{"steps": 3}},
 	{Prop: "C12", Func: "ZZ_H_History", Tag: "prop=12", POR: true, Replay: "native", Twin: true, Params: map[string]int{"prop": 12, "steps": 2, "__coarse": 1}, TParams: map[string]int{"steps": 3}},
+	{Prop: "C03", Func: "ZZ_C03_FailStop", Tag: "shape=5", POR: true, Replay: "native", Params: map[string]int{"shape": 5, "__coarse": 1}},
 	{Prop: "C03", Func: "ZZ_C03_FailStop", Tag: "shape=4", POR: true, Replay: "native", Params: map[string]int{"shape": 4, "failing": 1, "__coarse": 1}},
 	{Prop: "C06", Func: "ZZ_C03_FailStop", Tag: "shape=4", POR: true, Replay: "native", Params: map[string]int{"shape": 4, "failing": 1, "__coarse": 1}},
 	{Prop: "C06", Func: "ZZ_C01_Deps", Tag: "shape=6", POR: true, Replay: "native", Params: map[string]int{"shape": 6, "maxconc": 0, "failing": 2, "__coarse": 1}},
 	{Prop: "C06", Func: "ZZ_C06_RunModes", POR: true, Replay: "native", Twin: true, Params: map[string]int{"failing": 1, "__coarse": 1}},
 	{Prop: "C07", Func: "ZZ_C07_Concurrency", Tag: "shape=1", POR: true, Replay: "native", Twin: true, MustReach: []string{"independent-deps-overlap"}, Params: map[string]int{"shape": 1, "maxconc": 2, "__coarse": 1}},
 	{Prop: "C07", Func: "ZZ_C07_Concurrency", Tag: "shape=2", POR: true, Replay: "native", Params: map[string]int{"shape": 2, "maxconc": 2, "__coarse": 1}},
+	{Prop: "C07", Func: "ZZ_C07_Concurrency", Tag: "shape=2,failing", POR: true, Replay: "native", Params: map[string]int{"shape": 2, "maxconc": 1, "failing": 1, "__coarse": 1}},
 	{Prop: "C07", Func: "ZZ_C07_CallLimit", Replay: "native", Twin: true},
 	{Prop: "C11", Func: "ZZ_C11_DynamicVar", Replay: "native", Twin: true},
 	{Prop: "C11", Func: "ZZ_C11_Isolation", Replay: "native", Twin: true},
@@ -39,7 +41,8 @@ var allSpecs = []HarnessSpec{
 	{Prop: "C08", Pkg: "taskfile/ast", Func: "ZZ_C08_Merge", Replay: "native"},
 	{Prop: "C08", Pkg: "taskfile/ast", Func: "ZZ_C08_IncludedTwice", Replay: "native", Twin: true},
 	{Prop: "C09", Pkg: "taskfile/ast", Func: "ZZ_C09_Merge", Tag: "siblings", POR: true, Replay: "native", Twin: true, Params: map[string]int{"diamond": 0, "__maporder": 1, "__coarse": 1}},
-	{Prop: "C09", Pkg: "taskfile/ast", Func: "ZZ_C09_Merge", Tag: "diamond", POR: true, Replay: "native", Tiers: "thorough", Params: map[string]int{"diamond": 1, "__maporder": 1, "__coarse": 1}},
+	{Prop: "C09", Pkg: "taskfile/ast", Func: "ZZ_C09_Merge", Tag: "diamond", POR: true, Replay: "native", Params: map[string]int{"diamond": 1, "__maporder": 1, "__maporder_scope": 1, "__coarse": 1}},
+	{Prop: "C09", Pkg: "taskfile", Func: "ZZ_C09_Reader", POR: true, Replay: "native", Twin: true, Params: map[string]int{"__coarse": 1}},
 	{Prop: "C10", Pkg: "", Func: "ZZ_C10_Vars", Replay: "native", Twin: true},
 	{Prop: "C10", Pkg: "", Func: "ZZ_C10_Env", Replay: "native", Twin: true},
 	{Prop: "C15", Pkg: "", Func: "ZZ_C15_Resolve", Replay: "native", Twin: true, Params: map[string]int{"tasks": 2, "namelen": 3, "reqlen": 4}, TParams: map[string]int{"tasks": 3, "namelen": 3, "reqlen": 4}},
@@ -49,6 +52,7 @@ var allSpecs = []HarnessSpec{
 	{Prop: "C16", Func: "ZZ_C16_Compile", Replay: "native", Twin: true},
 	{Prop: "C16", Pkg: "taskfile", Func: "ZZ_C16_GitNode", Replay: "native", Twin: true},
 	{Prop: "C16", Pkg: "taskfile", Func: "ZZ_C16_Snippet", Replay: "native", Twin: true},
+	{Prop: "C17", Func: "ZZ_C17_RunCommand", Replay: "native", Twin: true},
 	{Prop: "C17", Pkg: "internal/output", Func: "ZZ_C17_Group", POR: true, Replay: "native", Twin: true, Params: map[string]int{"maxchunks": 1, "__coarse": 1}, TParams: map[string]int{"maxchunks": 2}},
 	{Prop: "C17", Pkg: "internal/output", Func: "ZZ_C17_Prefixed", POR: true, Replay: "native", Twin: true, Params: map[string]int{"maxchunks": 1, "__coarse": 1}, TParams: map[string]int{"maxchunks": 2}},
 	{Prop: "C20", Pkg: "taskfile", Func: "ZZ_C20_Cache", Replay: "native", Twin: true, Params: map[string]int{"steps": 2}, TParams: map[string]int{"steps": 3}},
